@@ -12,6 +12,7 @@
 # See the License for the specific language governing permissions and
 # limitations under the License.
 
+import ast
 from typing import List
 
 from sympy.logic import simplify_logic
@@ -48,6 +49,10 @@ def translate_ast(fun, types: List = [], defs: List[LogicFun] = []) -> LogicFun:
     for stmt in fun.body:
         s_exps, env = translate_statement(stmt, env, ret_.ttype)
         exps.append(s_exps)
+        if isinstance(stmt, ast.Return):
+            # what follows a return statement is never executed (and callers take the last
+            # expressions of the list for the value of the function)
+            break
 
     exps_flat = flatten(exps)
     exps_simpl = list(map(lambda e: simplify_logic(e, form="cnf"), exps_flat))
